@@ -7,6 +7,6 @@ h['obligations'] = ['every endorsement that follows the rules (any endorsed ance
                     'no VBK_ASSERT is reachable in apply / unapply / comparePopScore for any explored history (engine built-in obligation)']
 _rp = _ilu.spec_from_file_location('realspec', os.path.join(os.path.dirname(os.path.abspath(__file__)), '..', 'real', 'spec.py'))
 _real = _ilu.module_from_spec(_rp); _rp.loader.exec_module(_real)
-HARNESSES = [h] + copy.deepcopy([x for x in _real.HARNESSES if x['name'] == 'h_real'] + [x for x in _real.MEMPOOL_HARNESSES if x['name'] == 'h_mempool_submit'])
+HARNESSES = [h] + copy.deepcopy([x for x in _real.HARNESSES if x['name'] == 'h_real'] + [x for x in _real.MEMPOOL_HARNESSES if x['name'] in ('h_mempool_submit', 'h_mempool_timely', 'h_mempool_pair')])
 EXPLANATION = _c02.EXPLANATION
 ASSUMPTIONS = _real.ASSUMPTIONS + _c02.ASSUMPTIONS + ['MockMiner, signature construction and payouts are outside; mempool delivery is covered for the 5-payload universe of h_mempool_submit (every submission order of length 3: an honest ATV and VTB pass the stateless checks, are offered once their context was submitted, and the block carrying them activates)']
